@@ -300,7 +300,7 @@ func runMirror(r *core.Run) {
 				return
 			}
 			hit := false
-			for s := 0; s <= len(runes); s++ {
+			for s := 0; s <= len(runes); s += offsetStep(len(runes), s) {
 				detail, fwd, rev, incon := mirrorCompare(c, runes, s)
 				l.Eval(1)
 				if incon != "" {
